@@ -1,7 +1,9 @@
 package actionlint
 
 import (
+	"errors"
 	"fmt"
+	"math/big"
 	"strconv"
 	"strings"
 )
@@ -141,6 +143,13 @@ func (p *ExprParser) parseInt() ExprNode {
 	t := p.peek()
 	i, err := strconv.ParseInt(t.Value, 0, 32)
 	if err != nil {
+		// Numbers are 64-bit floating point values in expressions, so an integer literal which does
+		// not fit in 32 bits is still a valid number. Handle it as a float literal.
+		if b, ok := new(big.Int).SetString(t.Value, 0); ok && errors.Is(err, strconv.ErrRange) {
+			f, _ := new(big.Float).SetInt(b).Float64()
+			p.next() // eat int
+			return &FloatNode{f, t}
+		}
 		p.errorf("parsing invalid integer literal %q: %s", t.Value, err)
 		return nil
 	}
